@@ -80,6 +80,13 @@ func checkC11(p *Prog, r *Report) {
 	r.Rule("O7", "no value handed out points into live state: the address of a field of a long-lived object (e.g. a running counter) is never returned or stored into another object — data built from such a pointer changes after it was handed out")
 	fieldAddressEscapes(p, r, "O7", nil, "spine")
 	sharedGlobalCells(p, r, "O8")
+	// O9 (shared with C20-R1): an unlocked copy-modify-store cycle on the use-case data lets two appends write the
+	// same spare slot of a backing array that a snapshot taken in between already shares
+	if eli, fli := p.LookupIface("api", "EntityLocalInterface"), p.LookupIface("api", "FeatureLocalInterface"); eli != nil && fli != nil {
+		useCaseCycleRule(p, r, lsC11, eli, fli, "O9", "")
+	} else {
+		r.Undecided("O9", "anchor:api.EntityLocalInterface/FeatureLocalInterface", "", "interface not found")
+	}
 	r.Floor("O1", "stores to FunctionData.data", nStores, 2)
 	r.Floor("O2", "loads of FunctionData.data", nLoads, 3)
 	c11Rest(p, r, lsC11)
